@@ -287,8 +287,13 @@ def render(spec):
             body += " " + build
         w("pub %sfn c%d%s(%s) -> %s { %s }" % ("async " if c["async"] else "", i, gen, params, ret, body))
     w("")
+    # handlers listed in spec["route_imports"] ({handler index (str): group}) live in a sub-module per group and are
+    # registered with one `bp.routes(from![..])` import where the group's first `route` op stands (C05)
+    imports = {int(k): v for k, v in (spec.get("route_imports") or {}).items()}
+    group_src = {}
     for h in spec["handlers"]:
         i = h["i"]
+        _start = len(o)
         if h["fallible"]:
             emit_err("h", i)
         # custom (non-standard) methods need an explicit opt-in (C07)
@@ -312,6 +317,15 @@ def render(spec):
             body += " Response::ok()"
             ret = "Response"
         w("pub %sfn h%d(%s) -> %s { %s }" % ("async " if h["async"] else "", i, params, ret, body))
+        if i in imports and not h["fallible"]:
+            group_src.setdefault(imports[i], []).extend(o[_start:])
+            del o[_start:]
+    for g, ls in sorted(group_src.items()):
+        w("pub mod rg%d {" % g)
+        w("    use super::*;")
+        for l in ls:
+            w("    " + l)
+        w("}")
     w("")
     for m in spec["mws"]:
         i = m["i"]
@@ -346,6 +360,9 @@ def render(spec):
         w("pub fn o%d(e: &pavex::Error) { log(format!(\"observer %s.o%d\")); }" % (ob["i"], M, ob["i"]))
     w("")
 
+    emitted_groups = set()
+    imported_ok = {h["i"] for h in spec["handlers"] if h["i"] in imports and not h["fallible"]}
+
     def emit_ops(ops, var, depth):
         ind = "    " * (depth + 1)
         for op in ops:
@@ -358,6 +375,11 @@ def render(spec):
                 w("%s%s.pre_process(%s_M%d);" % (ind, var, U, op[1]))
             elif k == "post":
                 w("%s%s.post_process(%s_M%d);" % (ind, var, U, op[1]))
+            elif k == "route" and op[1] in imports and op[1] in imported_ok:
+                g = imports[op[1]]
+                if g not in emitted_groups:
+                    emitted_groups.add(g)
+                    w("%s%s.routes(pavex::blueprint::from![crate::%s::rg%d]);" % (ind, var, M, g))
             elif k == "route":
                 w("%s%s.route(%s_H%d);" % (ind, var, U, op[1]))
             elif k == "observer":
